@@ -40,24 +40,22 @@ place = pm.group(1) if pm else ("graph/tests/%s.rs" % name if "-p pie_graph" in 
 
 res = {"property": prop, "variant": variant, "demo_cmd": demo_cmd, "demo_place": place}
 sh("git checkout -q -- . && git clean -fdq -e target")
-os.makedirs(os.path.join(wt, os.path.dirname(place)), exist_ok=True)
-shutil.copy(os.path.join(src, "demo.rs"), os.path.join(wt, place))
-rc, out = sh(demo_cmd)
-res["clean_demo_passes"] = rc == 0
+# 1. patched tree, without the demo file: the existing suite
 rc, out = sh("git apply %s/patch.diff" % src)
 res["patch_applies"] = rc == 0
 if rc == 0:
     rc, out = sh("cargo test --workspace --no-fail-fast --offline --lib --bins --tests 2>&1 | grep -E '^test result' ")
-    passed = sum(int(x) for x in re.findall(r"(\d+) passed", out))
-    failed = sum(int(x) for x in re.findall(r"(\d+) failed", out))
-    # the demo test itself is part of --tests of its package: discount it
+    res["suite_passed_with_patch"] = sum(int(x) for x in re.findall(r"(\d+) passed", out))
+    res["suite_failed_with_patch"] = sum(int(x) for x in re.findall(r"(\d+) failed", out))
+    # 2. patched tree with the demo
+    os.makedirs(os.path.join(wt, os.path.dirname(place)), exist_ok=True)
+    shutil.copy(os.path.join(src, "demo.rs"), os.path.join(wt, place))
     rc2, out2 = sh(demo_cmd)
-    res["patched_demo_fails"] = rc2 != 0
-    dm = re.findall(r"test result: \w+\. (\d+) passed; (\d+) failed", out2)
-    dp = sum(int(a) for a, b in dm)
-    df = sum(int(b) for a, b in dm)
-    res["suite_passed_with_patch"] = passed - dp
-    res["suite_failed_with_patch"] = failed - df
+    res["patched_demo_fails"] = rc2 != 0 and "test result: FAILED" in out2
+    # 3. clean tree with the demo
+    sh("git checkout -q -- .")
+    rc3, out3 = sh(demo_cmd)
+    res["clean_demo_passes"] = rc3 == 0
 sh("git checkout -q -- . && git clean -fdq -e target")
 ok = res.get("clean_demo_passes") and res.get("patch_applies") and res.get("patched_demo_fails") \
     and res.get("suite_failed_with_patch") == 0 and res.get("suite_passed_with_patch", 0) >= 40
